@@ -241,7 +241,17 @@ def run_case_files(files: list[Path], timeout=900) -> dict[Path, tuple[int, str]
 
     with ThreadPoolExecutor(max_workers=NCPU) as ex:
         results = list(ex.map(lambda p: coqc(p, timeout), files))
-    return dict(zip(files, results))
+    res = dict(zip(files, results))
+    # a coqc that died without any output (fork / memory trouble on an overloaded machine) is not a verdict:
+    # re-run those files, one at a time
+    for _ in range(2):
+        again = [p for p in files if res[p][0] != 0 and not res[p][1].strip()]
+        if not again:
+            break
+        time.sleep(2)
+        for p in again:
+            res[p] = coqc(p, timeout)
+    return res
 
 
 def parse_nat_list(out: str) -> list[int] | None:
